@@ -35,7 +35,11 @@ RULE = ('cases = (recording, configuration) x runs (nprocesses, executor, task o
         'shortest / just complete last batch, single batch down to ns = SAMPLES_TAPER, NBATCH barely above two tapers.  Every recording is run '
         'with 1 worker and with the largest admissible worker count (ns >= P*NBATCH, P <= 8) and others in between, x {append to a first '
         'run, ns2add, k-filter or CAR, whitening none / scalar / identity / dense / penta-diagonal, per-channel AP gains uniform / two halves / '
-        'all mixed (imro table), nc_out without sync, .cbin input, channel rejection (thorough)}.  Runs use '
+        'all mixed (imro table), nc_out without sync, .cbin input, channel rejection (thorough)}.  Independently of the values the FORM of the '
+        'call is drawn (tags form:*): output dtype int16 / float32 / int32 / float64 (row bytes of the model = nc_out x item size of the OUTPUT '
+        'dtype), sr_file and output_file as str or Path, output_qc_path given, reader_kwargs given, butter_kwargs default / default given '
+        'explicitly / non-default, k_kwargs default given explicitly, h passed explicitly, nbatch and nprocesses as Python or NumPy integers, '
+        'keyword or positional call in the current signature order, wrot as float64 C / float32 / Fortran-ordered / read-only array.  Runs use '
         'the real function; joblib.Parallel is replaced by a sequential stand-in that executes the tasks in a seeded order and records every '
         'seek / tofile (most runs) or is the real thread / process back-end.  Compared per run: byte ranges written in the output / RMS / '
         'timestamp files vs the model, output bytes vs recomposition from the model\'s row provenance (P = 1), and the property observables '
@@ -52,6 +56,12 @@ ASSUMPTIONS = [
     'the whitening product does not depend on the thread count of the executing process',
     'QC reading of the statement: the saturation vector has one entry per sample of the recording of THIS call (append replaces the file, it does not '
     'extend it); RMS / timestamp files have one row per batch of every run appended so far',
+    'forms excluded because the API rejects them with a clear error: float-valued nbatch (TypeError: cannot be interpreted as an integer); '
+    'forms excluded as known findings: output_qc_path as str (AttributeError at the very end, QC files not saved; key output_qc_path_str), nbatch as a '
+    'narrow NumPy integer (seek offsets wrap in that width, silently wrong file for P >= 2; key nbatch_fixed_width_int; np.int32 / np.int64 are '
+    'generated, they are wide enough for the test sizes)',
+    'output dtype: the property is stated on VALUES - sync column equal to the source numbers, voltage columns within 1 count of the recomposition '
+    'cast to the same dtype; byte-identity is demanded only between runs of the same call with different worker counts',
     'padding: the statement fixes only the number of rows; the model (and the recomposition) use what the code does, ns2add copies of the last row',
     'recomposition compares voltage columns within 1 int16 LSB (bit-exact on the unchanged tree, reported in the notes) and the sync column exactly; '
     'it is a harness-level oracle (the Lean model places rows, it does not compute values) in the documented order: destripe batch, x mute on the '
@@ -247,15 +257,84 @@ def _limit_threads():
         os.environ[v] = '1'
 
 
-def run_destripe(src_file, out_dir, N, P, mode='seq', order=None, trace=False, **kw):
-    """Calls the real decompress_destripe_cbin(src_file, out_dir/'out.bin', nbatch=N, nprocesses=P, **kw).
+# the CURRENT signature of decompress_destripe_cbin after sr_file (used for the positional call spelling)
+SIG = ('output_file', 'h', 'wrot', 'append', 'nc_out', 'butter_kwargs', 'dtype', 'ns2add', 'nbatch', 'nprocesses', 'compute_rms',
+       'reject_channels', 'k_kwargs', 'k_filter', 'reader_kwargs', 'output_qc_path')
+SIG_DEFAULTS = dict(output_file=None, h=None, wrot=None, append=False, nc_out=None, butter_kwargs=None, dtype=np.int16, ns2add=0,
+                    nbatch=None, nprocesses=None, compute_rms=True, reject_channels=True, k_kwargs=None, k_filter=True,
+                    reader_kwargs=None, output_qc_path=None)
+FORM_DEFAULT = {'dtype': 'int16', 'src': 'path', 'out': 'path', 'qc': 0, 'reader_kwargs': 0, 'butter': 'default', 'k_kwargs': 0,
+                'h': 0, 'nbatch': 'int', 'nproc': 'int', 'call': 'kw', 'wform': 'c64'}
+NBATCH_FORMS = {'int': int, 'np64': np.int64, 'np32': np.int32, 'float': float, 'np16': np.int16}
+
+
+def _form(x):
+    """the representation of the call (how the same mathematical request is spelled), with defaults filled in"""
+    f = dict(FORM_DEFAULT)
+    x = x or {}
+    if any(k not in FORM_DEFAULT for k in x):      # a case / oracle input: its 'form' entry
+        x = x.get('form') or {}
+    f.update(x)
+    return f
+
+
+def _odt(x):
+    """requested OUTPUT dtype"""
+    return np.dtype(_form(x)['dtype'])
+
+
+def _butter(form, fs):
+    """butter_kwargs VALUE of the call (None = the function's default)"""
+    if form['butter'] == 'n2':
+        return {'N': 2, 'Wn': 500 / fs * 2, 'btype': 'highpass'}
+    return None
+
+
+def _call_args(src_file, out_dir, N, P, form, kw):
+    from ibldsp import voltage
+    form = _form(form)
+    out = Path(out_dir) / 'out.bin'
+    a = dict(kw)
+    a.setdefault('reject_channels', False)
+    a.setdefault('compute_rms', True)
+    a['output_file'] = str(out) if form['out'] == 'str' else out
+    a['nbatch'] = NBATCH_FORMS[form['nbatch']](N)
+    a['nprocesses'] = np.int64(P) if form['nproc'] == 'np64' else int(P)
+    if form['dtype'] != 'int16':
+        a['dtype'] = getattr(np, form['dtype'])
+    if form['qc']:
+        q = Path(out_dir) / 'qc'
+        q.mkdir(exist_ok=True)
+        a['output_qc_path'] = str(q) if form['qc'] == 'str' else q
+    if form['reader_kwargs']:
+        a['reader_kwargs'] = {'ignore_warnings': True}
+    if form['butter'] != 'default' or form['k_kwargs'] or form['h']:
+        import spikeglx
+        sr = spikeglx.Reader(src_file)
+        fs = sr.fs
+        if form['butter'] == 'explicit':      # the default value, given explicitly
+            a['butter_kwargs'] = dict(voltage._get_destripe_parameters(fs, None, None, True)[0])
+        elif form['butter'] == 'n2':
+            a['butter_kwargs'] = _butter(form, fs)
+        if form['k_kwargs']:                  # the default value, given explicitly
+            a['k_kwargs'] = dict(voltage._get_destripe_parameters(fs, None, None, True)[1])
+        if form['h']:                         # the geometry the function would read itself
+            a['h'] = dict(sr.geometry)
+        sr.close()
+    src = str(src_file) if form['src'] == 'str' else Path(src_file)
+    if form['call'] == 'pos':
+        return [src] + [a.get(k, SIG_DEFAULTS[k]) for k in SIG], {}
+    return [src], a
+
+
+def run_destripe(src_file, out_dir, N, P, mode='seq', order=None, trace=False, form=None, **kw):
+    """Calls the real decompress_destripe_cbin(src_file, out_dir/'out.bin', nbatch=N, nprocesses=P, **kw) in the call
+    spelling `form` (str / Path, positional / keyword, output dtype, options given explicitly ...).
     mode 'seq' (sequential stand-in, task order `order`), 'threads' / 'loky' (real joblib back-ends).
     Returns {'error': None | 'Type: msg', 'trace': {worker: {file: events}}, 'task_errors': {worker: type}}."""
     from ibldsp import voltage
-    out = Path(out_dir) / 'out.bin'
     res = {'error': None, 'trace': None, 'task_errors': {}}
-    kw.setdefault('reject_channels', False)
-    kw.setdefault('compute_rms', True)
+    args, kwargs = _call_args(src_file, out_dir, N, P, form, kw)
     if mode == 'seq':
         tr = _Trace() if trace else None
         _SeqParallel.order, _SeqParallel.trace, _SeqParallel.errors = order, tr, None
@@ -264,7 +343,7 @@ def run_destripe(src_file, out_dir, N, P, mode='seq', order=None, trace=False, *
         if tr is not None:
             voltage.open = tr.open
         try:
-            voltage.decompress_destripe_cbin(src_file, output_file=out, nbatch=N, nprocesses=P, **kw)
+            voltage.decompress_destripe_cbin(*args, **kwargs)
         except Exception as e:    # noqa
             res['error'] = f'{type(e).__name__}: {e}'[:200]
         finally:
@@ -278,9 +357,9 @@ def run_destripe(src_file, out_dir, N, P, mode='seq', order=None, trace=False, *
         try:
             if mode == 'threads':
                 with joblib.parallel_config(backend='threading'):
-                    voltage.decompress_destripe_cbin(src_file, output_file=out, nbatch=N, nprocesses=P, **kw)
+                    voltage.decompress_destripe_cbin(*args, **kwargs)
             else:
-                voltage.decompress_destripe_cbin(src_file, output_file=out, nbatch=N, nprocesses=P, **kw)
+                voltage.decompress_destripe_cbin(*args, **kwargs)
         except Exception as e:    # noqa
             res['error'] = f'{type(e).__name__}: {e}'[:200]
         finally:
@@ -293,14 +372,15 @@ def run_destripe(src_file, out_dir, N, P, mode='seq', order=None, trace=False, *
     return res
 
 
-def read_outputs(out_dir):
+def read_outputs(out_dir, form=None):
     d = Path(out_dir)
     o = {}
     f = d / 'out.bin'
     o['bytes'] = np.fromfile(f, dtype=np.uint8) if f.exists() else None
+    q = d / 'qc' if _form(form)['qc'] else d
     for key, name in (('rms', '_iblqc_ephysTimeRmsAP.rms.npy'), ('times', '_iblqc_ephysTimeRmsAP.timestamps.npy'),
                       ('sat', '_iblqc_ephysSaturation.samples.npy')):
-        p = d / name
+        p = q / name
         try:
             o[key] = np.load(p) if p.exists() else None
         except Exception:
@@ -308,7 +388,20 @@ def read_outputs(out_dir):
     return o
 
 
-def _wrot(kind, seed):
+def _wrot(kind, seed, wform='c64'):
+    w = _wrot_value(kind, seed)
+    if w is None or np.isscalar(w):
+        return w
+    if wform == 'f32':
+        w = w.astype(np.float32)
+    elif wform == 'F':
+        w = np.asfortranarray(w)
+    elif wform == 'ro':
+        w.setflags(write=False)
+    return w
+
+
+def _wrot_value(kind, seed):
     if kind == 'none':
         return None
     if kind == 'scalar':
@@ -350,7 +443,7 @@ class BatchProcessor:
     describes it (cosine taper of SAMPLES_TAPER samples at both ends, high-pass, ADC shift, spatial filter, sync
     re-attached, saturation mute on the voltage columns, scaling back to integers, optional whitening)."""
 
-    def __init__(self, src_file, N, T, k_filter=True, wrot=None, nc_out=None, reject=False):
+    def __init__(self, src_file, N, T, k_filter=True, wrot=None, nc_out=None, reject=False, dtype=np.int16, butter_kwargs=None):
         import scipy.signal
         import pyfftw
         import spikeglx
@@ -361,7 +454,8 @@ class BatchProcessor:
         self.h = h = sr.geometry
         self.ncv = ncv = h['sample_shift'].size
         self.labels = voltage.detect_bad_channels_cbin(sr) if reject else None
-        bk, kk, self.spatial = voltage._get_destripe_parameters(sr.fs, None, None, k_filter)
+        self.dtype = np.dtype(dtype)
+        bk, kk, self.spatial = voltage._get_destripe_parameters(sr.fs, butter_kwargs, None, k_filter)
         self.taper = np.r_[0, scipy.signal.windows.cosine((T - 1) * 2), 0]
         self.sos = scipy.signal.butter(**bk, output='sos')
         win = pyfftw.empty_aligned((ncv, N), dtype='float32')
@@ -403,33 +497,39 @@ class BatchProcessor:
         return chunk
 
     def rows(self, f, l, lo, hi):
-        """the int16 rows [lo, hi) of batch (f, l) as they go to the file"""
+        """the rows [lo, hi) of batch (f, l) as they go to the file, in the requested output dtype"""
         chunk = self.full(f, l)[lo:hi, :] * (1 / self.sr.sample2volts)
         if self.wrot is not None:
             chunk[:, :self.ncv] = np.dot(chunk[:, :self.ncv], self.wrot)
-        return chunk[:, :self.nc_out].astype(np.int16)
+        return chunk[:, :self.nc_out].astype(self.dtype)
 
     def close(self):
         self.sr.close()
 
 
 def _diff_rows(a, b, ncv_cols):
-    """a, b int16 (n, nc): returns (exact, max abs diff on voltage columns, sync columns equal)"""
+    """a, b (n, nc) in the output dtype: returns (exact, max abs difference of the VALUES on the voltage columns, sync columns equal)"""
     if a.shape != b.shape:
         return False, None, False
     if a.size == 0:
         return True, 0, True
-    dv = np.abs(a[:, :ncv_cols].astype(np.int32) - b[:, :ncv_cols].astype(np.int32))
+    dv = np.abs(a[:, :ncv_cols].astype(np.float64) - b[:, :ncv_cols].astype(np.float64))
     sync_eq = bool(np.array_equal(a[:, ncv_cols:], b[:, ncv_cols:]))
-    mx = int(dv.max()) if dv.size else 0
+    mx = float(dv.max()) if dv.size else 0.0
+    mx = mx if np.isfinite(mx) else 1e30
     return bool(mx == 0 and sync_eq), mx, sync_eq
 
 
 # ---------------------------------------------------------------------------------------------
 # model side helpers (parsing the driver's answers)
 # ---------------------------------------------------------------------------------------------
+def _rb(case):
+    """bytes per output row: nc_out x item size of the OUTPUT dtype"""
+    return (case.get('nc_out') or NC) * _odt(case).itemsize
+
+
 def _line(op, case, P, offs):
-    rb = (case.get('nc_out') or NC) * 2
+    rb = _rb(case)
     return f"{op} {case['ns']} {case['N']} {P} {rb} {offs[0]} {RROW} {TROW} {offs[1]} {offs[2]} {case['ns2add']}"
 
 
@@ -520,7 +620,7 @@ def _nwin(ns, N, T):
 # ---------------------------------------------------------------------------------------------
 def _kw(case):
     kw = dict(k_filter=bool(case['kfilter']), ns2add=int(case['ns2add']), reject_channels=bool(case.get('reject')))
-    w = _wrot(case['wrot'], case['seed'])
+    w = _wrot(case['wrot'], case['seed'], _form(case)['wform'])
     if w is not None:
         kw['wrot'] = w
     if case.get('nc_out'):
@@ -533,16 +633,16 @@ def _offsets(case, T):
     if not case.get('append'):
         return (0, 0, 0)
     a = case['append']
-    rb = (case.get('nc_out') or NC) * 2
+    rb = _rb(case)
     b0 = _nwin(a['ns'], a['N'], T)
     return ((a['ns'] + a.get('ns2add', 0)) * rb, b0 * RROW, b0 * TROW)
 
 
-def _expected_from_segments(bp, segs, nc_out, keep=None):
+def _expected_from_segments(bp, segs, nc_out, keep=None, dtype=np.int16):
     """assemble the file rows the model predicts (holes stay 0); `keep` = indices of the segments to compute
     (None = all), the mask tells which rows were computed"""
     nrows = max([s[1] for s in segs], default=0)
-    exp = np.zeros((nrows, nc_out), dtype=np.int16)
+    exp = np.zeros((nrows, nc_out), dtype=dtype)
     mask = np.zeros(nrows, dtype=bool) if keep is not None else np.ones(nrows, dtype=bool)
     for k, (r0, r1, f, l, t0, step) in enumerate(segs):
         if keep is not None:
@@ -581,7 +681,8 @@ def run_case(payload):
     try:
         ns, N, seed = case['ns'], case['N'], case['seed']
         nc_out = case.get('nc_out') or NC
-        rb = nc_out * 2
+        form, odt = _form(case), _odt(case)
+        rb = _rb(case)
         src, D = make_recording(tmp, 'rec', ns, seed, sat=case.get('sat', ()), cbin=bool(case.get('cbin')),
                                 faulty=bool(case.get('reject')), gains=case.get('gains'))
         kw = _kw(case)
@@ -591,7 +692,8 @@ def run_case(payload):
                 base[k] = case[k]
         if case.get('append'):
             base['append'] = case['append']
-        ctag = ('kfilt' if case['kfilter'] else 'car', 'wrot=' + case['wrot'], 'ns2add>0' if case['ns2add'] else 'ns2add=0',
+        base['form'] = {k: v for k, v in form.items() if v != FORM_DEFAULT[k]}
+        ctag = tuple(f'form:{k}={v}' for k, v in sorted(form.items())) + ('kfilt' if case['kfilter'] else 'car', 'wrot=' + case['wrot'], 'ns2add>0' if case['ns2add'] else 'ns2add=0',
                 'append' if case.get('append') else 'fresh', 'cbin' if case.get('cbin') else 'bin',
                 'reject' if case.get('reject') else 'noreject', 'nc_out=' + str(nc_out), 'kind=' + case.get('kind', '?'),
                 'gains=' + (case.get('gains') or 'uniform'))
@@ -602,8 +704,8 @@ def run_case(payload):
             a = case['append']
             src0, _ = make_recording(tmp, 'first', a['ns'], seed + 1)
             pre_dir = tmp / 'pre'; pre_dir.mkdir()
-            r0 = run_destripe(src0, pre_dir, a['N'], a['P'], mode='seq', **{**kw, 'ns2add': a.get('ns2add', 0)})
-            pre = read_outputs(pre_dir)
+            r0 = run_destripe(src0, pre_dir, a['N'], a['P'], mode='seq', form=form, **{**kw, 'ns2add': a.get('ns2add', 0)})
+            pre = read_outputs(pre_dir, form)
             sizes = (len(pre['bytes']) if pre['bytes'] is not None else -1, (pre_dir / 'ap_rms.bin').stat().st_size,
                      (pre_dir / 'ap_time.bin').stat().st_size)
             recs.append(dict(op='append_state', desc={**base, 'op': 'append_state'}, impl=f'{r0["error"]} {sizes}',
@@ -618,7 +720,7 @@ def run_case(payload):
             return d
 
         bp = BatchProcessor(src, N, T, k_filter=kw['k_filter'], wrot=kw.get('wrot'), nc_out=case.get('nc_out'),
-                            reject=bool(case.get('reject')))
+                            reject=bool(case.get('reject')), dtype=odt, butter_kwargs=_butter(form, 30000.0))
         ref_bytes = None       # output of the first in-domain run (P = 1 by construction of the generator)
         ref_rows = None
         ref_qc = None
@@ -635,8 +737,8 @@ def run_case(payload):
             if case.get('append'):
                 kwr['append'] = True
             t1 = time.time()
-            res = run_destripe(src, d, N, P, mode=mode, order=order, trace=(mode == 'seq'), **kwr)
-            out = read_outputs(d)
+            res = run_destripe(src, d, N, P, mode=mode, order=order, trace=(mode == 'seq'), form=form, **kwr)
+            out = read_outputs(d, form)
             shutil.rmtree(d, ignore_errors=True)
             # -- (1) schedule: every seek / write of every worker, and which workers crash
             if mode == 'seq':
@@ -668,11 +770,11 @@ def run_case(payload):
                 if mr is None:
                     impl_s, model_s = 'file written', model['rows'][mk][:60]
                 else:
-                    exp, mask = _expected_from_segments(bp, mr['segs'], nc_out, _keep_segments(case, mr['segs']))
-                    if len(tail) != exp.size * 2:
+                    exp, mask = _expected_from_segments(bp, mr['segs'], nc_out, _keep_segments(case, mr['segs']), odt)
+                    if len(tail) != exp.size * odt.itemsize:
                         impl_s, model_s = f'rows={len(tail) / rb}', f'rows={exp.shape[0]}'
                     else:
-                        exact, mx, sync_eq = _diff_rows(tail.view(np.int16).reshape(-1, nc_out)[mask], exp[mask], min(NCV, nc_out))
+                        exact, mx, sync_eq = _diff_rows(tail.view(odt).reshape(-1, nc_out)[mask], exp[mask], min(NCV, nc_out))
                         good = ok_pref and mx is not None and mx <= 1 and sync_eq and mr['whole'] == 1 and (mr['eq'] == 1 or not dom)
                         impl_s = 'ok' if good else f'prefix_kept={ok_pref} maxdiff={mx} sync_eq={sync_eq}'
                         model_s = 'ok' if good else f'whole={mr["whole"]} eq_ref={mr["eq"]}'
@@ -686,14 +788,14 @@ def run_case(payload):
             if ref_bytes is None:
                 ref_bytes, ref_qc, ref_P = h, out, P
                 if len(got) == len(prefix) + (ns + case['ns2add']) * rb:
-                    ref_rows = got[len(prefix):].view(np.int16).reshape(-1, nc_out).copy()
+                    ref_rows = got[len(prefix):].view(odt).reshape(-1, nc_out).copy()
             exp_size = len(prefix) + (ns + case['ns2add']) * rb
             obs, want = {}, {}
             obs['size'], want['size'] = len(got), exp_size
             if len(got) == exp_size:
-                rows = got[len(prefix):].view(np.int16).reshape(-1, nc_out)
+                rows = got[len(prefix):].view(odt).reshape(-1, nc_out)
                 if nc_out == NC:
-                    bad = np.where(rows[:ns, NCV] != D[:, NCV])[0]
+                    bad = np.where(rows[:ns, NCV] != D[:, NCV].astype(odt))[0]     # same VALUES, whatever the output dtype
                     obs['sync'] = 'equal' if bad.size == 0 else f'{bad.size} differ, first at {int(bad[0])}'
                     want['sync'] = 'equal'
                 obs['prefix'] = bool(np.array_equal(got[:len(prefix)], prefix)); want['prefix'] = True
@@ -713,13 +815,13 @@ def run_case(payload):
         if case['wrot'] in MATRIX_WROT and ref_rows is not None and not case.get('f14'):
             d = fresh_dir('nowrot', False)
             kw0 = {k: v for k, v in kw.items() if k != 'wrot'}
-            r0 = run_destripe(src, d, N, 1, mode='seq', **kw0)
-            o0 = read_outputs(d)
+            r0 = run_destripe(src, d, N, 1, mode='seq', form=form, **kw0)
+            o0 = read_outputs(d, form)
             shutil.rmtree(d, ignore_errors=True)
             if r0['error'] or o0['bytes'] is None or len(o0['bytes']) != (ns + case['ns2add']) * rb:
                 impl_s = f'run without wrot: {r0["error"]}'
             else:
-                rel = whitening_relation(ref_rows[:ns], o0['bytes'].view(np.int16).reshape(-1, nc_out)[:ns], kw['wrot'], NCV)
+                rel = whitening_relation(ref_rows[:ns], o0['bytes'].view(odt).reshape(-1, nc_out)[:ns], kw['wrot'], NCV)
                 impl_s = 'holds' if rel is None else rel
             recs.append(dict(op='whitening_relation', desc={**base, 'op': 'whitening_relation'}, impl=impl_s, model='holds',
                              nontrivial=True, tags=ctag + ('whitening_relation',)))
@@ -768,6 +870,18 @@ def _smooth(n):
         if m == 1:
             return n
         n += 1
+
+
+def _draw_form(rng, force_dtype=None):
+    """the spelling of the call, drawn independently of the values (only non-default entries are stored)"""
+    f = {'dtype': force_dtype or str(rng.choice(['int16', 'float32', 'int32', 'float64'], p=[.45, .3, .15, .1])),
+         'src': str(rng.choice(['path', 'str'])), 'out': str(rng.choice(['path', 'str'])),
+         'qc': int(rng.random() < 0.25), 'reader_kwargs': int(rng.random() < 0.25),
+         'butter': str(rng.choice(['default', 'explicit', 'n2'], p=[.6, .25, .15])), 'k_kwargs': int(rng.random() < 0.25),
+         'h': int(rng.random() < 0.3), 'nbatch': str(rng.choice(['int', 'np64', 'np32'], p=[.6, .25, .15])),
+         'nproc': str(rng.choice(['int', 'np64'], p=[.8, .2])), 'call': str(rng.choice(['kw', 'pos'], p=[.65, .35])),
+         'wform': str(rng.choice(['c64', 'f32', 'F', 'ro'], p=[.4, .2, .2, .2]))}
+    return {k: v for k, v in f.items() if v != FORM_DEFAULT[k]}
 
 
 def _order(rng, P):
@@ -853,6 +967,7 @@ def gen_cases(ctx):
             for attempt in range(12):
                 cand = _in_domain_case(rng, T, kind, Pt, ctx.quick)
                 cand['recomp'] = ctx.n(6, 20)
+                cand['form'] = _draw_form(rng, {1: 'float32', 3: 'int32', 5: 'float32'}.get(ci % 6))
                 if ci % 3 == 0:     # a fixed share of non-diagonal whitening on recordings with non-uniform gains
                     cand['wrot'] = ['penta', 'matrix'][(ci // 3) % 2]
                     cand['gains'] = ['halves', 'mixed'][(ci // 3 + ci // 6) % 2]
@@ -886,6 +1001,8 @@ def gen_cases(ctx):
         ns = max(1, min(int(ns), P * N - 1, 4 * N))
         case = {'ns': ns, 'N': N, 'seed': int(rng.integers(0, 2 ** 31)), 'kind': 'f14', 'kfilter': 0, 'wrot': 'none',
                 'ns2add': int(rng.choice([0, 0, 5])), 'sat': [], 'runs': [[P, 'seq', list(range(P))]], 'f14': 1}
+        if ci % 3 == 1:
+            case['form'] = {'dtype': str(rng.choice(['float32', 'int32']))}
         cases.append(case)
     return cases, T
 
@@ -994,36 +1111,38 @@ def oracle(inp):
     if not (N > 2 * T and P >= 1 and (ns >= P * N or (P == 1 and ns >= T))):
         return None      # outside the domain of the property (known finding)
     case = {'kfilter': inp.get('kfilter', 0), 'wrot': inp.get('wrot', 'none'), 'ns2add': inp.get('ns2add', 0),
-            'seed': inp.get('seed', 0), 'nc_out': inp.get('nc_out')}
+            'seed': inp.get('seed', 0), 'nc_out': inp.get('nc_out'), 'form': inp.get('form') or {}}
     kw = _kw(case)
     nc_out = inp.get('nc_out') or NC
-    rb = nc_out * 2
+    form, odt = _form(case), _odt(case)
+    rb = _rb(case)
     tmp = Path(tempfile.mkdtemp(prefix='c06o_'))
     try:
         src, D = make_recording(tmp, 'rec', ns, case['seed'], sat=inp.get('sat') or (), gains=inp.get('gains'))
         # 1 worker, fresh file: the reference of "independent of the worker count"
         d1 = tmp / 'p1'; d1.mkdir()
-        r = run_destripe(src, d1, N, 1, mode='seq', **kw)
+        r = run_destripe(src, d1, N, 1, mode='seq', form=form, **kw)
         if r['error']:
             return f'1 worker: raised {r["error"]}'
-        o1 = read_outputs(d1)
+        o1 = read_outputs(d1, form)
         wg = WindowGenerator(ns, N, 2 * T)
         valid = [tuple(int(x) for x in q) for q in wg.firstlast_valid]
         B = len(valid)
         b1 = o1['bytes']
         if len(b1) != (ns + case['ns2add']) * rb:
             return f'1 worker: output has {len(b1) / rb} rows, expected ns + ns2add = {ns + case["ns2add"]}'
-        rows1 = b1.view(np.int16).reshape(-1, nc_out)
+        rows1 = b1.view(odt).reshape(-1, nc_out)
         if nc_out == NC:
-            bad = np.where(rows1[:ns, NCV] != D[:, NCV])[0]
+            bad = np.where(rows1[:ns, NCV] != D[:, NCV].astype(odt))[0]
             if bad.size:
                 return (f'sync column differs from the source at {bad.size} samples, first at {int(bad[0])}: '
-                        f'{int(rows1[bad[0], NCV])} instead of {int(D[bad[0], NCV])}')
+                        f'{rows1[bad[0], NCV]} instead of {int(D[bad[0], NCV])}')
         qc = [None if o1[k] is None else tuple(o1[k].shape) for k in ('sat', 'rms', 'times')]
         if qc != [(ns,), (B, NCV), (B,)]:
             return f'1 worker: QC shapes (saturation, rms, timestamps) = {qc}, expected {[(ns,), (B, NCV), (B,)]}'
         # batch-wise in-memory destriping with the documented margins
-        bp = BatchProcessor(src, N, T, k_filter=kw['k_filter'], wrot=kw.get('wrot'), nc_out=inp.get('nc_out'))
+        bp = BatchProcessor(src, N, T, k_filter=kw['k_filter'], wrot=kw.get('wrot'), nc_out=inp.get('nc_out'), dtype=odt,
+                            butter_kwargs=_butter(form, 30000.0))
         idx = list(range(B)) if B <= 10 else sorted({0, 1, 2, B // 2, B - 3, B - 2, B - 1})
         for k in idx:
             f, l, fv, lv = valid[k]
@@ -1032,15 +1151,15 @@ def oracle(inp):
             if mx is None or mx > 1 or not sync_eq:
                 bp.close()
                 return (f'1 worker: rows [{fv}, {lv}) differ from in-memory destriping of batch [{f}, {l}) in the documented order '
-                        f'(destripe, mute, / sample2volts per channel, whitening, int16): max difference {mx} LSB, sync equal: {sync_eq}')
+                        f'(destripe, mute, / sample2volts per channel, whitening, astype(dtype)): max difference {mx} counts, sync equal: {sync_eq}')
         bp.close()
         # the whitening matrix is applied to the output: out(W) = out(None) @ W up to the integer truncations
         if case['wrot'] in MATRIX_WROT:
             d0 = tmp / 'p1_nowrot'; d0.mkdir()
-            r = run_destripe(src, d0, N, 1, mode='seq', **{k: v for k, v in kw.items() if k != 'wrot'})
+            r = run_destripe(src, d0, N, 1, mode='seq', form=form, **{k: v for k, v in kw.items() if k != 'wrot'})
             if r['error']:
                 return f'1 worker without wrot: raised {r["error"]}'
-            rows0 = read_outputs(d0)['bytes'].view(np.int16).reshape(-1, nc_out)
+            rows0 = read_outputs(d0, form)['bytes'].view(odt).reshape(-1, nc_out)
             rel = whitening_relation(rows1[:ns], rows0[:ns], kw['wrot'], NCV)
             if rel:
                 return '1 worker: ' + rel
@@ -1050,10 +1169,10 @@ def oracle(inp):
             a = inp['append']
             src0, _ = make_recording(tmp, 'first', int(a['ns']), case['seed'] + 1)
             dp = tmp / 'pre'; dp.mkdir()
-            r = run_destripe(src0, dp, int(a['N']), int(a['P']), mode='seq', **{**kw, 'ns2add': int(a.get('ns2add', 0))})
+            r = run_destripe(src0, dp, int(a['N']), int(a['P']), mode='seq', form=form, **{**kw, 'ns2add': int(a.get('ns2add', 0))})
             if r['error']:
                 return f'first run (to append to) raised {r["error"]}'
-            pre = read_outputs(dp)
+            pre = read_outputs(dp, form)
         orders = [list(range(P))] + ([list(range(P))[::-1]] if P > 1 else [])
         if P == 1 and not pre:
             orders = []
@@ -1063,11 +1182,11 @@ def oracle(inp):
                 shutil.copytree(tmp / 'pre', d)
             else:
                 d.mkdir()
-            r = run_destripe(src, d, N, P, mode='seq', order=order, **({**kw, 'append': True} if pre is not None else kw))
+            r = run_destripe(src, d, N, P, mode='seq', form=form, order=order, **({**kw, 'append': True} if pre is not None else kw))
             who = f'{P} workers (task order {order})' + (' appending' if pre is not None else '')
             if r['error']:
                 return f'{who}: raised {r["error"]}'
-            o = read_outputs(d)
+            o = read_outputs(d, form)
             got = o['bytes']
             npre = 0 if pre is None else len(pre['bytes'])
             if len(got) != npre + len(b1):
@@ -1101,7 +1220,7 @@ def _oracle_safe(inp):
 def _size(inp):
     return (inp['ns'], inp['P'], int(bool(inp.get('append'))) + int(bool(inp.get('ns2add'))) + int(inp.get('wrot', 'none') != 'none')
             + int(bool(inp.get('kfilter'))) + int(bool(inp.get('sat'))) + int(bool(inp.get('nc_out')))
-            + int((inp.get('gains') or 'uniform') != 'uniform'))
+            + int((inp.get('gains') or 'uniform') != 'uniform') + len(inp.get('form') or {}))
 
 
 def _grid(T):
@@ -1109,13 +1228,18 @@ def _grid(T):
     N1, N2, N3 = _smooth(2 * T + 512), _smooth(3 * T), _smooth(4 * T)
 
     def mk(ns, N, P, **k):
-        d = {'ns': ns, 'N': N, 'P': P, 'seed': 11, 'T': T, 'kfilter': 0, 'wrot': 'none', 'gains': 'uniform', 'ns2add': 0, 'sat': [], 'append': None, 'nc_out': None}
+        d = {'ns': ns, 'N': N, 'P': P, 'seed': 11, 'T': T, 'kfilter': 0, 'wrot': 'none', 'gains': 'uniform', 'ns2add': 0, 'sat': [], 'append': None, 'nc_out': None, 'form': {}}
         d.update(k)
         return d
     g.append(mk(2 * N1, N1, 2))
     g.append(mk(T, N2, 1))
     g.append(mk(T, N2, 1, wrot='penta', gains='halves'))
     g.append(mk(2 * N1, N1, 2, wrot='matrix', gains='mixed'))
+    g.append(mk(2 * N1, N1, 2, form={'dtype': 'float32'}))
+    g.append(mk(2 * N1 + 1, N1, 2, form={'dtype': 'int32', 'call': 'pos', 'src': 'str', 'out': 'str', 'qc': 1},
+                append={'ns': N1, 'N': N1, 'P': 1, 'ns2add': 0}))
+    g.append(mk(3 * N2, N2, 3, wrot='penta', gains='halves',
+                form={'dtype': 'float32', 'h': 1, 'k_kwargs': 1, 'butter': 'explicit', 'reader_kwargs': 1, 'nbatch': 'np64', 'wform': 'F'}))
     g.append(mk(N1 + (N1 - 2 * T) + 1, N1, 1, ns2add=5, sat=[[N1 - T - 20, 50]]))
     g.append(mk(2 * N1 + 1, N1, 2, ns2add=3, sat=[[N1 - 30, 40], [2 * N1 - 20, 30]], append={'ns': N1, 'N': N1, 'P': 1, 'ns2add': 0}))
     g.append(mk(3 * N2 + 1, N2, 3, wrot='scalar', sat=[[N2, 25]]))
@@ -1135,7 +1259,7 @@ def _inputs_from_mismatches(ctx, T):
         P = int(c.get('P', 1))
         inp = {'ns': int(c['ns']), 'N': int(c['N']), 'P': P, 'seed': int(c.get('seed', 0)), 'T': T, 'kfilter': int(c.get('kfilter', 0)),
                'wrot': c.get('wrot', 'none'), 'gains': c.get('gains') or 'uniform', 'ns2add': int(c.get('ns2add', 0)), 'sat': c.get('sat') or [],
-               'append': c.get('append'), 'nc_out': c.get('nc_out')}
+               'append': c.get('append'), 'nc_out': c.get('nc_out'), 'form': c.get('form') or {}}
         if inp['ns'] < P * inp['N'] and not (P == 1 and inp['ns'] >= T):
             continue
         key = json.dumps(inp, sort_keys=True)
@@ -1163,11 +1287,17 @@ def search(ctx, reasons):
         fails.sort(key=lambda x: _size(x[0]))
         inp, r = fails[0]
         # shrink: drop options one at a time, then fewer workers
-        for _ in range(2):
+        for _ in range(4):
             trials = []
             for k, v in (('append', None), ('ns2add', 0), ('wrot', 'none'), ('kfilter', 0), ('sat', []), ('nc_out', None), ('gains', 'uniform')):
                 if inp.get(k) not in (v, None, 0, 'none', []):
                     trials.append({**inp, k: v})
+            if len(inp.get('form') or {}) > 1:
+                trials.append({**inp, 'form': {}})
+                if 'dtype' in inp['form']:
+                    trials.append({**inp, 'form': {'dtype': inp['form']['dtype']}})
+            for k in list(inp.get('form') or {}):      # back to the default spelling, one entry at a time
+                trials.append({**inp, 'form': {kk: vv for kk, vv in inp['form'].items() if kk != k}})
             if inp['P'] > 2:
                 trials.append({**inp, 'P': 2})
             if not trials:
@@ -1232,6 +1362,39 @@ def _demo_rms_false(T):
         shutil.rmtree(tmp, ignore_errors=True)
 
 
+def _demo_qc_str(T):
+    """output_qc_path given as str (output_file may be a str): AttributeError after the output has been written, QC files not saved"""
+    _limit_threads()
+    tmp = Path(tempfile.mkdtemp(prefix='c06k_'))
+    try:
+        src, _ = make_recording(tmp, 'a', 2 * T, 5)
+        r = run_destripe(src, tmp, _smooth(3 * T), 1, mode='seq', form={'qc': 'str', 'out': 'str'})
+        return r['error'] is not None and 'AttributeError' in r['error']
+    finally:
+        shutil.rmtree(tmp, ignore_errors=True)
+
+
+def _demo_nbatch_int16(T):
+    """nbatch given as a NumPy fixed-width integer: first_s and the seek offsets are computed in that width and wrap"""
+    _limit_threads()
+    import warnings
+    warnings.filterwarnings('ignore')
+    tmp = Path(tempfile.mkdtemp(prefix='c06k_'))
+    try:
+        N = _smooth(2 * T + 512)
+        ns = 2 * N + 7
+        src, _ = make_recording(tmp, 'a', ns, 5)
+        sizes = {}
+        for f in ('int', 'np16'):
+            d = tmp / f; d.mkdir()
+            r = run_destripe(src, d, N, 2, mode='seq', form={'nbatch': f})
+            o = read_outputs(d)
+            sizes[f] = (r['error'], None if o['bytes'] is None else len(o['bytes']))
+        return sizes['int'] == (None, ns * NC * 2) and sizes['np16'] != sizes['int']
+    finally:
+        shutil.rmtree(tmp, ignore_errors=True)
+
+
 def known_findings(ctx):
     T = int(ctx.consts.get('DESTRIPE_TAPER', 1024))
 
@@ -1240,4 +1403,5 @@ def known_findings(ctx):
             with _pool(1) as ex:
                 return ex.submit(fn, T).result()
         return run
-    return {'short_recording_many_workers': in_pool(_demo_short), 'compute_rms_false': in_pool(_demo_rms_false)}
+    return {'short_recording_many_workers': in_pool(_demo_short), 'compute_rms_false': in_pool(_demo_rms_false),
+            'output_qc_path_str': in_pool(_demo_qc_str), 'nbatch_fixed_width_int': in_pool(_demo_nbatch_int16)}
